@@ -86,6 +86,13 @@ CodecViol(e, exp) ==
                     \cup (IF m.nfds # FeReplyFds(e.c, ok, withFile) THEN {"C01/backend/reply-descriptor-count/" \o tag \o "/h=" \o e.h} ELSE {})
                     \cup (IF FeReplyFds(e.c, ok, withFile) = 1 /\ m.fdids # <<e.hv.ret_file>> THEN {"C01/backend/reply-descriptor-identity/" \o tag} ELSE {})
                     \cup (IF ~m.fd_first THEN {"C01/backend/descriptors-not-with-first-byte/" \o tag} ELSE {})
+                    \* the header of the reply: same code, version 1 + REPLY and nothing else, size of the payload
+                    \cup (IF m.flags # FLAG_VERSION + FLAG_REPLY THEN {"C01/backend/reply-header-flags=" \o Str(m.flags) \o "/" \o tag} ELSE {})
+                    \cup (IF m.c # e.c THEN {"C01/backend/reply-header-code/" \o tag} ELSE {})
+               ELSE IF exp.out \in {"ack0", "nack"} /\ e.nout = 1
+               THEN LET m == e.out[1] IN
+                    (IF m.flags # FLAG_VERSION + FLAG_REPLY THEN {"C01/backend/ack-header-flags=" \o Str(m.flags) \o "/" \o tag} ELSE {})
+                    \cup (IF m.c # e.c \/ m.size # 8 THEN {"C01/backend/ack-header/" \o tag} ELSE {})
                ELSE {})
 
 \* C05: hostile input.  The handler is invoked only with arguments that satisfy the protocol's
@@ -178,7 +185,7 @@ TVReq == /\ l <= Len(Rec) /\ Rec[l].ev = "req"
                THEN /\ viol' = AddViol(viol, CutViol(e), cur)
                     /\ judged' = judged + 1
                     /\ UNCHANGED s
-               ELSE IF e.var \in {"valid", "fixed"}
+               ELSE IF e.var \in {"valid", "fixed", "max"}
                THEN /\ viol' = AddViol(viol, IF e.seg = <<>> THEN dev \cup HostileViol(e)
                                              ELSE IF dev = {} THEN {}
                                              ELSE {"C08/backend/segmented-request-mishandled/c=" \o Str(e.c) \o "/" \o e.res}, cur)
